@@ -10,7 +10,10 @@ import (
 	"sync/atomic"
 	"time"
 
+	"github.com/crate-crypto/go-ipa/bandersnatch/fr"
+	"github.com/crate-crypto/go-ipa/banderwagon"
 	"github.com/crate-crypto/go-ipa/common/parallel"
+	"github.com/crate-crypto/go-ipa/ipa"
 
 	"verif/mon"
 )
@@ -41,6 +44,7 @@ func init() {
 					// the default worker limit is the CPU count, whatever GOMAXPROCS says
 					out = append(out, Child{TimeoutS: pick(tier, 400, 3600), Flavour: "race", NCPU: k, GOMAXPROCS: []int{0, 8, 1, 16}[i], Params: map[string]string{"part": "default"}})
 				}
+				out = append(out, Child{TimeoutS: 400, Flavour: "race", NCPU: 4, GOMAXPROCS: 4, Params: map[string]string{"part": "busy"}})
 				return out
 			}
 			for i := 0; i < 12; i++ {
@@ -48,6 +52,9 @@ func init() {
 			}
 			for k := 1; k <= 16; k++ {
 				out = append(out, Child{TimeoutS: pick(tier, 400, 3600), Flavour: "race", NCPU: k, GOMAXPROCS: []int{0, 16, 1, 2 * k}[k%4], Params: map[string]string{"part": "default"}})
+			}
+			for _, k := range []int{2, 4, 16} {
+				out = append(out, Child{TimeoutS: 1200, Flavour: "race", NCPU: k, Params: map[string]string{"part": "busy"}})
 			}
 			return out
 		},
@@ -239,8 +246,113 @@ func c20nested(c *mon.Ctx, rng *rand.Rand) {
 	c.Eval("concurrent-top-level-calls", true)
 }
 
+// c20concurrentDefault: more calls without an explicit limit in flight than there are CPUs, released together (and one
+// nested inside another); every one must hand out its whole range.
+func c20concurrentDefault(c *mon.Ctx, rng *rand.Rand) {
+	G := 2*runtime.NumCPU() + 3
+	var wg sync.WaitGroup
+	var ready int32
+	for g := 0; g < G; g++ {
+		g := g
+		n := 1 + rng.Intn(400)
+		salt := rng.Uint64()
+		wg.Add(1)
+		go func() {
+			defer wg.Done()
+			atomic.AddInt32(&ready, 1)
+			for atomic.LoadInt32(&ready) < int32(G) {
+				runtime.Gosched()
+			}
+			p, _ := mon.Try(func() {
+				if g%5 == 4 {
+					parallel.Execute(3, func(a, b int) { c20call(c, n, 0, true, 1, salt) })
+				} else {
+					c20call(c, n, 0, true, 2, salt)
+				}
+			})
+			if p != nil {
+				c.Fail("panic/concurrent-default-limit-calls", fmt.Sprintf("Execute(%d, work) panicked while %d calls without an explicit limit were in flight on %d CPUs: %v", n, G, runtime.NumCPU(), p), nil)
+			}
+		}()
+	}
+	wg.Wait()
+	c.Eval(fmt.Sprintf("concurrent-default-limit-calls|ncpu=%d", runtime.NumCPU()), true)
+}
+
+// c20busy: the splitter is a utility shared with the library's own users (table construction, batch normalisation,
+// MSMs). A grid of calls is made while those run in other goroutines, and again after several overlapping table
+// constructions have finished: what the library does with the splitter must not change what a caller gets from it.
+func c20busy(c *mon.Ctx) {
+	pts := ipa.GenerateRandomPoints(6)
+	many := make([]banderwagon.Element, 300)
+	sc := make([]fr.Element, 300)
+	for i := range many {
+		many[i] = pts[i%len(pts)]
+		many[i].Double(&many[i])
+		sc[i].SetUint64(uint64(3*i + 1))
+	}
+	work := func() {
+		banderwagon.NewPrecompMSM(pts)
+		cp := append([]banderwagon.Element(nil), many...)
+		ptrs := make([]*banderwagon.Element, len(cp))
+		for i := range cp {
+			ptrs[i] = &cp[i]
+		}
+		banderwagon.BatchNormalize(ptrs)
+		var e banderwagon.Element
+		e.MultiExp(cp, sc, banderwagon.MultiExpConfig{NbTasks: 8, ScalarsMont: true})
+	}
+	sweep := func(tag string) {
+		k := 0
+		for n := 0; n <= 130; n++ {
+			for _, m := range []int{1, 2, 3, 4, 7, 16, 64} {
+				k++
+				c20call(c, n, m, false, k%3, uint64(c.Seed)*31+uint64(k))
+				cl, nt := c20class(n, m, k%3, false)
+				c.Eval(tag+"|"+cl, nt)
+			}
+			if n%4 == 0 {
+				c20call(c, n, 0, true, 1, uint64(c.Seed)*17+uint64(n))
+			}
+		}
+	}
+	stop := make(chan struct{})
+	var wg sync.WaitGroup
+	for w := 0; w < 2; w++ {
+		wg.Add(1)
+		go func() {
+			defer wg.Done()
+			for {
+				select {
+				case <-stop:
+					return
+				default:
+					work()
+				}
+			}
+		}()
+	}
+	c.Case("busy/during-library-activity", func() { sweep("during-library-activity") })
+	close(stop)
+	wg.Wait()
+	c.Case("busy/after-overlapping-table-constructions", func() {
+		var wg2 sync.WaitGroup
+		for w := 0; w < 3; w++ {
+			wg2.Add(1)
+			go func() { defer wg2.Done(); banderwagon.NewPrecompMSM(pts) }()
+			time.Sleep(time.Duration(200+300*w) * time.Microsecond)
+		}
+		wg2.Wait()
+		sweep("after-table-constructions")
+	})
+}
+
 func runC20(c *mon.Ctx) {
 	part := c.Config["part"]
+	if part == "busy" {
+		c20busy(c)
+		return
+	}
 	if part == "default" {
 		w := runtime.NumCPU()
 		maxN := c.Pick(1024, 2048)
@@ -252,6 +364,12 @@ func runC20(c *mon.Ctx) {
 				c.Eval(fmt.Sprintf("ncpu=%d|P=%d|%s", w, runtime.GOMAXPROCS(0), cl), nt)
 			}
 			c.Sample(map[string]interface{}{"call": "Execute(n, work)", "n": "0.." + fmt.Sprint(maxN), "numcpu": w})
+		})
+		c.Case("default/concurrent", func() {
+			rng := c.Rand("default/concurrent")
+			for k := 0; k < c.Pick(20, 200); k++ {
+				c20concurrentDefault(c, rng)
+			}
 		})
 		return
 	}
